@@ -355,7 +355,12 @@ func (e LinkEngine) Run(t *testing.T, ctx *kit.Ctx, sc *kit.Scenario[LinkConfig,
 	nontrivial := false
 	deliverFrame := func(m *msg, f int) *kit.Result {
 		before := len(got)
-		rx.VerifHandleFrame(append([]byte(nil), m.frames[f]...))
+		// the transport owns its receive buffer and uses it again for the next frame
+		buf := append([]byte(nil), m.frames[f]...)
+		rx.VerifHandleFrame(buf)
+		for j := range buf {
+			buf[j] = 0xEE
+		}
 		m.done[f]++
 		for _, d := range got[before:] {
 			// every delivery must be one of the messages sent, unaltered
